@@ -2,7 +2,7 @@
    computation on the physically reduced table, up to the renaming of ranks.  No bound on the number of samples. *)
 From Coq Require Import List Arith ZArith QArith Bool Sorted.
 From Gst Require Import lib.QAux lib.LinAlgQ C05.Reindex C05.Model C05.Spec C05.Proofs_db.
-From Gst Require C01.Model C01.Proofs C06.Model C06.Spec C12.Model C12.Spec.
+From Gst Require C01.Model C01.Proofs C06.Model C06.Spec C12.Model.
 From Gst Require Import C05.Spec_krige C05.Proofs_krige C05.Spec_neigh C05.Proofs_neigh C05.Spec_vario C05.Proofs_vario.
 Import ListNotations.
 Local Open Scope Q_scope.
@@ -190,31 +190,32 @@ Proof. intros oracle p t samples _. exact (proj1 (moving_reduce oracle p t sampl
 Print Assumptions C05_xvalid.
 
 (* ---------------------------------------------------------------------------------------------- variograms (model of C12) *)
-(* Vario::_calculateGeneralSolution1 without dates: the pairs handed to keepPair are exactly the pairs of the reduced Db *)
+(* Vario::_calculateGeneralSolution1 (with or without dates): the pairs handed to keepPair on the Db with masked samples
+   are exactly those of the reduced Db (the stable sort on the first coordinate commutes with the removal; a "break" that
+   fires on a masked sample also fires on the next, further, sample); no pair with a masked end gets there *)
 Theorem C05_vario_pairs : forall cf d l,
-  C12.Model.c_dateLoop cf = false -> 0 < C12.Model.d_dpas d -> 0 <= C12.Model.d_tol d ->
-  C12.Model.reached1 cf d l = C12.Model.reached1 cf d (vreduce cf l) /\
+  C12.Model.reached1 cf d (vreduce cf l) = C12.Model.reached1 cf d l /\
   forall p, In p (C12.Model.reached1 cf d l) -> C12.Model.is_active cf (fst p) = true /\ C12.Model.is_active cf (snd p) = true.
 Proof.
-  intros cf d l H1 H2 H3. split; [apply reached1_reduce; assumption|].
-  intros p Hp. apply (reached1_only_active cf d l p H1 H2 H3 Hp).
+  intros cf d l. split; [apply reached1_reduce|]. intros p Hp. apply (outer1_active cf _ _ _ p Hp).
 Qed.
 Print Assumptions C05_vario_pairs.
 
-(* the whole result (accumulation, scaling, centring, C(0) patch) for every estimator but Poisson, whose global mean is
-   taken over the first nvar samples of the Db (C12's finding) and therefore depends on which samples are physically there *)
-Theorem C05_vario : forall cf d l,
-  C12.Model.c_dateLoop cf = false -> 0 < C12.Model.d_dpas d -> 0 <= C12.Model.d_tol d -> C12.Model.c_calc cf <> C12.Model.Poisson ->
-  C12.Model.solution1 cf d l = C12.Model.solution1 cf d (vreduce cf l).
-Proof. exact solution1_reduce. Qed.
+(* the whole result of one direction (accumulation, scaling, centring, C(0) patch, global means), for every estimator,
+   pair-wise (solution 1) and by sample (solution 2) *)
+Theorem C05_vario : forall cf flag_sample d l,
+  C12.Model.compute_dir cf flag_sample d (vreduce cf l) = C12.Model.compute_dir cf flag_sample d l.
+Proof. exact compute_dir_reduce. Qed.
 Print Assumptions C05_vario.
 
-Theorem C05_vario_drop_selection : forall cf d l,
-  C12.Model.c_dateLoop cf = false -> 0 < C12.Model.d_dpas d -> 0 <= C12.Model.d_tol d ->
-  (forall s, In s l -> C12.Model.is_active cf s = true) ->
-  C12.Model.solution1 cf d l = C12.Model.solution1 (cfg_nosel cf) d l.
-Proof. exact solution1_nosel. Qed.
-Print Assumptions C05_vario_drop_selection.
+(* weights: for the estimators weighted by w1*w2 a pair with a zero-weight end adds exactly nothing to any accumulator
+   (not so for the Poisson estimator, which adds -mean/2 per pair, and for the covariogram, weighted by w2 alone) *)
+Theorem C05_vario_zero_weight : forall cf d means a b u,
+  weight_product_calc (C12.Model.c_calc cf) = true ->
+  (C12.Model.get_weight cf a == 0 \/ C12.Model.get_weight cf b == 0) ->
+  In u (C12.Model.pair_updates cf d means a b) -> zero_upd u.
+Proof. exact pair_updates_zero_weight. Qed.
+Print Assumptions C05_vario_zero_weight.
 
 (* ---------------------------------------------------------------------------------------------- non-vacuity *)
 Definition ex_rows : list row :=
@@ -294,5 +295,15 @@ Example C05_vario_nonvacuous :
   length (C12.Model.reached1 ex_vcf ex_vd ex_vl) = 3%nat /\ length (vreduce ex_vcf ex_vl) = 3%nat /\
   length (C12.Model.reached1 (cfg_nosel ex_vcf) ex_vd ex_vl) = 6%nat /\
   map (map C12.Model.o_sw) (C12.Model.solution1 ex_vcf ex_vd ex_vl) = [[0; 1; 1; 1]] /\
-  C12.Model.solution1 ex_vcf ex_vd ex_vl = C12.Model.solution1 ex_vcf ex_vd (vreduce ex_vcf ex_vl).
+  C12.Model.compute_dir ex_vcf false ex_vd ex_vl = C12.Model.compute_dir ex_vcf false ex_vd (vreduce ex_vcf ex_vl).
+Proof. vm_compute. repeat split; reflexivity. Qed.
+(* zero weight: samples at 0 and 1, the second of weight 0: the pair produces one update, all of whose increments vanish *)
+Example C05_vario_zero_weight_nonvacuous :
+  let cf := {| C12.Model.c_calc := C12.Model.Vg; C12.Model.c_hasSel := false; C12.Model.c_hasW := true; C12.Model.c_dateLoop := false;
+               C12.Model.c_dateChk := false; C12.Model.c_nvar := 1 |} in
+  let a := {| C12.Model.s_x := [0]; C12.Model.s_sel := true; C12.Model.s_w := Some 2; C12.Model.s_date := None; C12.Model.s_z := [Some 1] |} in
+  let b := {| C12.Model.s_x := [1]; C12.Model.s_sel := true; C12.Model.s_w := Some 0; C12.Model.s_date := None; C12.Model.s_z := [Some 5] |} in
+  weight_product_calc (C12.Model.c_calc cf) = true /\ qeqb (C12.Model.get_weight cf b) 0 = true /\
+  length (C12.Model.pair_updates cf ex_vd [0] a b) = 1%nat /\
+  map (fun u => qeqb (C12.Model.u_sw u) 0 && qeqb (C12.Model.u_glo u) 0) (C12.Model.pair_updates cf ex_vd [0] a b) = [true].
 Proof. vm_compute. repeat split; reflexivity. Qed.
